@@ -117,7 +117,8 @@ def check_case(ctx, out, desc, exact, origin):
         out.count('illposed')
         return
     out.nontrivial((gen_net.shape(desc), desc['zero'] == sorted({d['n1'] for d in desc['branches']} | {d['n2'] for d in desc['branches']})[0]))
-    canon_base = dict(op='solve', kinds=kinds, zero_touches_only_ideal_vs=zero_touches_only_ideal_vs(desc))
+    canon_base = dict(op='solve', kinds=kinds, zero_touches_only_ideal_vs=zero_touches_only_ideal_vs(desc),
+                      has_self_loop=any(d['n1'] == d['n2'] for d in desc['branches']))
     # ---- a valid network never fails to solve
     try:
         if net is None:
@@ -186,6 +187,82 @@ def check_case(ctx, out, desc, exact, origin):
                 out.disagree('access.' + key, gen_net.pretty(desc), str(impl_val[e['id']]), e[key], id=e['id'])
     out.traces_validated += 1
     out.sample(gen_net.pretty(desc))
+    mapper_case(ctx, out, desc, net, pot, v, i, canon_base, A_np)
+    port_voltage_case(ctx, out, desc, net, pot, canon_base)
+
+def stable_seed(desc):
+    import hashlib
+    return int(hashlib.sha256(repr(gen_net.pretty(desc)).encode()).hexdigest()[:8], 16)
+
+def permuted_mapper(base, seed):
+    """a valid non-default index map: the default one with its indices permuted (public keyword of the solver,
+    of open_circuit_impedance and of the state-space builder)"""
+    from CircuitCalculator.Network.NodalAnalysis import label_mapping as lm
+    def mapper(network):
+        m = base(network)
+        keys = list(m.keys)
+        order = list(keys)
+        core.Rng(seed, 'perm', len(keys)).shuffle(order)
+        return lm.LabelMapping({k: j for j, k in enumerate(order)})      # enumeration order = index order, as the library's own maps
+    return mapper
+
+def mapper_case(ctx, out, desc, net, pot, v, i, canon_base, A_np):
+    """the reported solution does not depend on the index maps handed to the solver (node numbering, source
+    column order): the solver is run again with permuted maps and must report the same circuit quantities"""
+    from CircuitCalculator.Network.NodalAnalysis.bias_point_analysis import NodalAnalysisBiasPointSolution
+    from CircuitCalculator.Network.NodalAnalysis import label_mapping as lm
+    seed = stable_seed(desc)
+    cond = float(np.linalg.cond(A_np)) if A_np is not None and A_np.size else 1.0
+    tol = min(1e-5, max(1e-8, cond * 1e-12))
+    ps, is_ = gen_net.net_scales(net)
+    scale = max([abs(x) for x in list(pot.values()) + list(v.values())] + [ps, 1e-300])
+    iscale = max([abs(x) for x in i.values()] + [is_, 1e-300])
+    variants = [('node_mapper', dict(node_mapper=permuted_mapper(lm.default_node_mapper, seed))),
+                ('voltage_source_mapper', dict(voltage_source_mapper=permuted_mapper(lm.alphabetic_voltage_source_mapper, seed + 1))),
+                ('current_source_mapper', dict(current_source_mapper=permuted_mapper(lm.alphabetic_current_source_mapper, seed + 2))),
+                ('all_mappers', dict(node_mapper=permuted_mapper(lm.default_node_mapper, seed + 3),
+                                     voltage_source_mapper=permuted_mapper(lm.alphabetic_voltage_source_mapper, seed + 4),
+                                     current_source_mapper=permuted_mapper(lm.alphabetic_current_source_mapper, seed + 5)))]
+    for name, kw in variants:
+        canon = dict(canon_base, op='solve_with_custom_mapper', mapper=name)
+        try:
+            pot2, v2, i2, _ = impl_report(net, NodalAnalysisBiasPointSolution(network=net, **kw))
+        except Exception as e:
+            out.spec_fail(dict(canon, symptom='raises', exc=tag(e)), f'well-posed network fails to solve with a permuted {name}: {type(e).__name__}',
+                          gen_net.pretty(desc), impl=dict(exception=repr(e)), desc=desc)
+            return
+        out.count('mapper:' + name)
+        for what, a, b, sc in (('potential', pot, pot2, scale), ('voltage', v, v2, scale), ('current', i, i2, iscale)):
+            for k in a:
+                if not core.rclose(b[k], a[k], sc, tol):
+                    out.spec_fail(dict(canon, symptom='depends_on_index_map', quantity=what),
+                                  f'{what} of {k!r} changes when the solver is given a permuted {name} ({a[k]} → {b[k]})',
+                                  gen_net.pretty(desc), impl=dict(default=str(a[k]), permuted=str(b[k])), desc=desc)
+                    return
+
+def port_voltage_case(ctx, out, desc, net, pot, canon_base):
+    """open_circuit_voltage(network, a, b) is the difference of the solved potentials, for every ordered pair"""
+    from CircuitCalculator.Network.NodalAnalysis.bias_point_analysis import open_circuit_voltage
+    labels = sorted(pot)
+    if len(labels) > 5:
+        rng = core.Rng(stable_seed(desc), 'ocv'); labels = rng.sample(labels, 5)
+    ps, _ = gen_net.net_scales(net)
+    scale = max([abs(x) for x in pot.values()] + [ps, 1e-300])
+    for a in labels:
+        for b in labels:
+            if a == b: continue
+            try:
+                got = complex(open_circuit_voltage(net, a, b))
+            except Exception as e:
+                out.spec_fail(dict(canon_base, op='open_circuit_voltage', symptom='raises', exc=tag(e)),
+                              f'open_circuit_voltage({a!r}, {b!r}) raises {type(e).__name__} on a solved network', gen_net.pretty(desc), desc=desc)
+                return
+            out.count('ocv_pairs')
+            if not core.rclose(got, pot[a] - pot[b], scale, 1e-7):
+                out.spec_fail(dict(canon_base, op='open_circuit_voltage', symptom='not_potential_difference'),
+                              f'open_circuit_voltage({a!r}, {b!r}) = {got}, the solved potentials give {pot[a] - pot[b]}',
+                              gen_net.pretty(desc), impl=dict(value=str(got)), desc=desc)
+                return
 
 CORPUS = [
     # reference node touching only an ideal voltage source (well-posed)
@@ -199,7 +276,22 @@ CORPUS = [
                              dict(n1='b', n2='a', id='A1', kind='admittance', args=dict(Y=complex(0.25, -0.5))),
                              dict(n1='a', n2='c', id='M', kind='impedance', args=dict(Z=complex(0, 2))),
                              dict(n1='c', n2='b', id='B', kind='vs_ideal', args=dict(V=complex(0, 4)))]),
+    # a self-loop branch is electrically inert (no incidence); the exact tableau gives φ(1) = −2
+    dict(zero='0', branches=[dict(n1='1', n2='0', id='I', kind='cs_ideal', args=dict(I=1.0)),
+                             dict(n1='1', n2='0', id='R', kind='resistor', args=dict(R=2.0)),
+                             dict(n1='1', n2='1', id='S', kind='resistor', args=dict(R=2.0))]),
 ]
+
+def with_self_loops(rng, desc):
+    """the same network plus 1–2 branches whose two terminals are the same node (passive element, open circuit,
+    short circuit or ideal current source): electrically inert, the solution of the rest must not change"""
+    d = dict(zero=desc['zero'], branches=[dict(b, args=dict(b['args'])) for b in desc['branches']])
+    labels = sorted({b['n1'] for b in d['branches']} | {b['n2'] for b in d['branches']})
+    for k in range(rng.randint(1, 2)):
+        n = rng.choice(labels)
+        kind = rng.choice(['resistor', 'admittance', 'impedance', 'conductor', 'open', 'short', 'cs_ideal'])
+        d['branches'].insert(rng.randrange(len(d['branches']) + 1), dict(n1=n, n2=n, id=f'loop{k}', kind=kind, args=gen_net.gen_args(rng, kind)))
+    return d
 
 def run(ctx, out):
     out.rule = ('connected multigraphs (spanning tree + extra/parallel edges, random terminal order, adversarial '
@@ -215,6 +307,8 @@ def run(ctx, out):
         exact = rng.random() < 0.7
         desc = gen_net.random_desc(rng, exact=exact, degenerate=0.08 if rng.random() < 0.3 else 0.0)
         check_case(ctx, out, desc, exact, 'random')
+        if k % 12 == 0:
+            check_case(ctx, out, with_self_loops(rng, desc), exact, 'random')
     # bounded-exhaustive small topologies
     max_b = 2 if ctx.quick else 3
     n_enum = 0
